@@ -1,15 +1,25 @@
 #!/bin/bash
 # Runs checks against a seeded change: applies the patch to /repo, runs the quick check of each
 # given property with the given budget, and always restores /repo afterwards.
+# With MUT_WORKTREE=1 the patch is applied to a scratch worktree of /repo's HEAD instead (the
+# check is pointed at it with -repo), so that /repo itself stays untouched while something else
+# is using it.
 # usage: tools/mutant.sh <patch.diff> <budget_s> <property ids...>
 cd "$(dirname "$0")/.."
 patch=$(readlink -f "$1"); budget=$2; shift 2
-if ! git -C /repo diff --quiet; then echo "refusing: /repo has uncommitted changes"; exit 2; fi
-git -C /repo apply "$patch" || { echo "patch does not apply"; exit 2; }
-trap 'git -C /repo checkout -- . ; git -C /repo clean -fdq' EXIT
+repo=/repo
+if [ -n "$MUT_WORKTREE" ]; then
+  repo=$(mktemp -d /var/tmp/mutwt.XXXXXX); rmdir $repo
+  git -C /repo worktree add --detach $repo HEAD -q || { echo "worktree failed"; exit 2; }
+  trap 'git -C /repo worktree remove --force $repo; rm -rf $repo' EXIT
+else
+  if ! git -C /repo diff --quiet; then echo "refusing: /repo has uncommitted changes"; exit 2; fi
+  trap 'git -C /repo checkout -- . ; git -C /repo clean -fdq' EXIT
+fi
+git -C $repo apply "$patch" || { echo "patch does not apply"; exit 2; }
 export VERIF_OUTDIR=${VERIF_OUTDIR:-/var/tmp/mutant-out}; mkdir -p $VERIF_OUTDIR
 for p in "$@"; do
-  out=$(./bin/check -p $p -budget $budget -seed ${MUT_SEED:-7} ${MUT_SHRINK:--noshrink} 2>&1)
+  out=$(./bin/check -repo $repo -p $p -budget $budget -seed ${MUT_SEED:-7} ${MUT_SHRINK:--noshrink} 2>&1)
   rc=$?
   v=$(echo "$out" | grep -c "^VIOLATION")
   first=$(echo "$out" | grep "^violation \[" | head -2 | cut -c1-260 | tr '\n' ' ')
